@@ -164,7 +164,7 @@ def contract_oracle(meta, impl):
 def span_wf_oracle(meta, impl):
     """C06: the primary error's span lies inside the input, start <= end; found is the token at
     the start of the span and is None only at the end of input."""
-    if impl.kind != "FAIL" or meta["ekind"] == "empty": return None
+    if impl.kind != "FAIL" or meta["ekind"] == "empty" or meta["ikind"] == "tree": return None      # (token trees: gapped, nested spans)
     e = impl.last()
     sp = err_span(e)
     n = len(meta["inp"])
@@ -222,6 +222,18 @@ def c08_hook(G, rng):
         return ["Then", rec, G.g(1)]
     return G.g(rng.randint(1, 4))
 
+def c17_hook(G, rng):
+    """now and then: contexts nested three and four deep with a label that recurs around a different one (A > B > A), the failure
+    lying beyond the first token of all of them"""
+    if rng.random() < 0.12:
+        a, b = rng.sample(range(1, 6), 2)
+        labels = rng.choice([[a, b, a], [a, b, a, b], [a, a, b, a], [a, b, b, a]])
+        t = lambda: ["Just", [rng.choice([A, B, C])]]
+        body = rng.choice([["Then", t(), t()], ["Then", t(), G.g(1)], ["Then", t(), ["Or", ["Then", t(), t()], t()]]])
+        for l in reversed(labels):
+            body = ["Labelled", l, 1, ["Then", t(), body]]
+        return body if rng.random() < 0.6 else ["Or", body, G.g(1)]
+    return G.g(rng.randint(1, 4))
 def c04_hook(G, rng):
     c = rng.random()
     if c < 0.12: return ["Then", G.pratt(), G.g(1)] if rng.random() < 0.5 else ["IgnoreThen", G.g(1), G.pratt()]
@@ -275,6 +287,24 @@ def c01_graphemes(rng, tier):
                 g = mk([cl, x])
                 for inp in [[p] for p in pieces] + [[cl], [x], [pieces[0], x], [x, cl], []]:
                     out.append((g, inp, ["graphemes", "gslice"]))
+    return out
+
+def c06_trees(rng, tier):
+    """C06 on nested inputs: a nested_in tried after something else has already failed at the same or a later position"""
+    G = Gen(rng, [c for c in CORE + ITER + ["NestedIn"] * 6 if c != "Not"], alpha=ALPHA, slices=False, no_not=True)
+    G.mws = ["MWSpan", "MWCtx"]
+    out = []
+    for _ in range(150 if tier == "quick" else 2000):
+        inner = G.g(rng.randint(1, 2))
+        n = [rng.choice(["NestedIn", "NestedVia"]), inner]
+        first = rng.choice([["Then", ["Just", [A]], ["Then", ["Just", [B]], ["Just", [C]]]], ["Then", "Any", ["Just", [B]]], ["TryMap", "PFalse", "FId", 3, ["Then", "Any", "Any"]],
+                            ["Then", ["OrNot", ["Then", ["Just", [A]], ["Just", [B]]]], ["Just", [C]]], G.g(2)])
+        c = rng.random()
+        if c < 0.5: g = ["Or", first, ["Then", n, G.g(1)]]
+        elif c < 0.75: g = ["Then", ["OrNot", first], n]
+        else: g = ["Then", ["Collect", "CVec", ["IRep", ["Then", ["Just", [A]], ["Just", [B]]], 0, "inf"]], ["Or", n, ["Just", [C]]]]
+        for inp in inputs_for(rng, g, ALPHA, n_valid=2, n_mut=3, n_rand=2, trees=True):
+            out.append((g, inp, ["tree"]))
     return out
 
 def c10_cross(groups):
@@ -391,7 +421,7 @@ SPECS = {
                 rule="C01/C02 grammars with with_ctx / ignore_with_ctx / then_with_ctx / map_ctx providers, configure()d just and "
                      "repeated (configure and try_configure: exactly / at_least / at_most / nothing set, and a try_configure whose closure returns an error for an "
                      "empty context) and context-reading map_with at random nodes; non-trivial = a provider present, non-empty input"),
-    "C17": Spec("C17", CORE + ITER + DECOR * 6, obs_full, sem_obs=obs_vv_emis, ekinds=("rich",),
+    "C17": Spec("C17", CORE + ITER + DECOR * 6, obs_full, sem_obs=obs_vv_emis, ekinds=("rich",), gen_hook=lambda G, rng: c17_hook(G, rng),
                 nontrivial=lambda g, inp: has_head(g, set(DECOR)),
                 rule="C01/C02 grammars with labelled / as_context / map_err at random nodes, Rich errors; non-trivial = a decoration present"),
     "C18": Spec("C18", CORE + ITER + RECOVER + ["MapWith"] * 6 + ["FoldlWith", "FoldrWith"] + ["Skip"] * 2 + ["WithState"] * 3 + ["Padded"] * 4 + ["AnyRef", "SelectRef"] * 2 + ["Prog"] * 3, obs_vv, ekinds=("rich",), ikinds=("str", "slice"),
@@ -403,7 +433,7 @@ SPECS = {
     "C20": Spec("C20", CORE + SPANS + ITER + EMIT + RECOVER + DECOR + CTX + ["ExtWrap", "Skip", "Padded", "IntoIter", "CollectOrNot", "RepUnitCfg", "Prog", "Pratt"], lambda r: (r.kind,), ekinds=("rich", "empty", "cheap", "simple"),
                 gen_hook=lambda G, rng: (G.leftrec_wrapped() if rng.random() < 0.06 else G.memoize(G.g(rng.randint(2, 3)), 0.3) if rng.random() < 0.06 else
                                          G.pratt() if rng.random() < 0.06 else G.g(rng.randint(1, 4))),
-                ikinds=("str", "slice"), nontrivial=lambda g, inp: True,
+                ikinds=("str", "slice", "io", "stream"), nontrivial=lambda g, inp: True,
                 rule="grammars over every modelled constructor (repetition items and skip parsers syntactically consuming), "
                      "all error types; observable = the verdict class (OK / FAIL / PANIC / TIMEOUT); plus implementation-only runs with the verdict known by "
                      "construction: chains of 3*10^4 (thorough: 3*10^5) right-/left-associative infix, prefix and postfix Pratt operators, nesting 6*10^4 deep through "
@@ -604,5 +634,6 @@ SPECS["C12"].universe = dict(U(leaves=[["Var", 0]], unary=[lambda x: ["Delimited
 SPECS["C04"].kind_cases = c04_trees
 SPECS["C10"].kind_cases = c10_graphemes
 SPECS["C01"].kind_cases = c01_graphemes
+SPECS["C06"].kind_cases = c06_trees
 SPECS["C10"].all_kinds = True
 SPECS["C10"].extra_cases = c10_long
